@@ -310,3 +310,24 @@ def match_arms(s, mopen, mclose):
 
 def line_of(s, off):
     return s.count('\n', 0, off) + 1
+
+
+def inner_match(s, lo, hi):
+    """First `match` keyword in s[lo:hi] (code, not comment/string) -> (kw, open, close) or None."""
+    mask = code_mask(s)
+    for m in re.finditer(r'\bmatch\b', s[lo:hi]):
+        a = lo + m.start()
+        if not mask[a]:
+            continue
+        d2 = 0
+        for k2, p, q in tokens(s, a + 5, hi):
+            if k2 != 'c':
+                continue
+            if s[p] in '([':
+                d2 += 1
+            elif s[p] in ')]':
+                d2 -= 1
+            elif s[p] == '{' and d2 == 0:
+                return a, p, match_close(s, p)
+        return None
+    return None
